@@ -35,6 +35,9 @@ class Ctx:
         self.t0 = time.time()
 
     def explore(self, name, space, check, **kw) -> ex.Stats:
+        only = os.environ.get("VT_ONLY")        # development only: run a subset of sub-checks (registered commands never set it)
+        if only and name not in only.split(","):
+            return ex.Stats(name=name, size=0, evaluations=0, transitions=0)
         st = ex.explore(name, space, check, **kw)
         self.stats.append(st)
         dt = st.wall_s
